@@ -6,7 +6,7 @@
          (v1: carried row index) and core.read_data_page_v2 (slice, prev_i = 0). *)
 From Coq Require Import NArith List Bool.
 From Pq Require Import Format.Nested Impl.CAssemble Proofs.NestedProofs Proofs.CAssembleProofs
-  Proofs.CAssemblePagesProofs Proofs.NestedMapProofs.
+  Proofs.CAssemblePagesProofs Proofs.NestedMapProofs Proofs.NestedInvProofs.
 Import ListNotations.
 Open Scope N_scope.
 
@@ -18,6 +18,14 @@ Theorem C15_assemble_shred : forall (V : Type) (sh : shape) (rows : list (row V)
   assemble_spec sh (fst (shred sh rows)) (snd (shred sh rows)) = Some rows.
 Proof. exact assemble_shred. Qed.
 Print Assumptions C15_assemble_shred.
+
+(* spec, converse: the spec decoder accepts ONLY shreddings of well-formed rows, so "every stream
+   assemble_spec accepts" (the hypothesis of C15_pages_partial) and "every shredding of
+   well-formed rows" are the same set of streams; shred / assemble_spec are mutually inverse *)
+Theorem C15_assemble_only_shreds : forall (V : Type) (sh : shape) (es : list entry) (vs : list V) (rows : list (row V)),
+  assemble_spec sh es vs = Some rows -> wf_rows sh rows = true /\ shred sh rows = (es, vs).
+Proof. exact assemble_spec_inv. Qed.
+Print Assumptions C15_assemble_only_shreds.
 
 (* impl, PARTIAL.  Full statement (the property's quantifier inside the model): for EVERY cut of an
    accepted level/value stream into non-empty v1 pages,  run_v1 sh (length rows) pages = AOk rows.
@@ -124,6 +132,19 @@ Theorem C15_v2_null_true_refuted :
     run_v2 false sh (length rows) pages = AOk rows.
 Proof. exact v2_null_true_refuted. Qed.
 Print Assumptions C15_v2_null_true_refuted.
+
+(* core.py defect (repaired by a fix: commit): v2 pages of a LIST/MAP leaf with PLAIN values took
+   the flat branch of read_data_page_v2 (rows indexed by level entries: IndexError / scalars in
+   rows); the repaired chain sends PLAIN and dictionary pages of a repeated leaf to record assembly *)
+Theorem C15_v2_plain_refuted :
+  exists enc, v2_branch true 1 enc = BFlat /\ v2_branch false 1 enc = BAssemble.
+Proof. exact v2_plain_refuted. Qed.
+Print Assumptions C15_v2_plain_refuted.
+
+Theorem C15_v2_branch : forall max_rep enc, 0 < max_rep -> (enc = EPlain \/ enc = EDict) ->
+  v2_branch false max_rep enc = BAssemble.
+Proof. exact v2_branch_repaired. Qed.
+Print Assumptions C15_v2_branch.
 
 Example C15_nonvacuous :
   let sh := mkShape true true in
